@@ -130,3 +130,35 @@ func init() {
 		}
 	}})
 }
+
+func init() {
+	register(&Prop{ID: "XBOUNDS", Run: func(c *Ctx) {
+		pp := newPrProg(c)
+		var entries []*prFunc
+		for _, f := range pp.funcs {
+			entries = append(entries, f)
+		}
+		reach := pp.reach(entries, nil)
+		verdicts, _ := pp.judge(reach, prOptions{})
+		byFile := map[string][2]int{}
+		for _, v := range verdicts {
+			if v.rule != "bounds" {
+				continue
+			}
+			file := c.P.Fset.Position(v.s.n.Pos()).Filename
+			file = file[len(c.P.Dir)+1:]
+			x := byFile[file]
+			if v.class == "ok" {
+				x[0]++
+			} else if v.class != "delegated" {
+				x[1]++
+				fmt.Printf("UNPROVEN %s %s %s :: %s\n", c.Pos(v.s.n), v.s.f.Name(), v.s.Expr(), v.why)
+			}
+			byFile[file] = x
+		}
+		for f, x := range byFile {
+			fmt.Printf("FILE %s ok=%d unproven=%d\n", f, x[0], x[1])
+		}
+		c.R.Ok("X", "x", "", "dump")
+	}})
+}
